@@ -56,6 +56,11 @@ def jsonFmtKV : List (Key × Tr ι) → Option Err
     orErr (if k.isStr then none else some .keyTypeError) (orErr (jsonFmt v) (jsonFmtKV kvs))
 end
 
+/-- the key test of `no_dot_in_key` / `json_attr_dict_validator` -/
+def dotKeyCheck : Key → Option Err
+  | .s s => if hasDot s then some .invalidKeyError else none
+  | .n _ => some .keyTypeError
+
 /-! `no_dot_in_key`: string key with a dot → InvalidKeyError, non-string key →
 KeyTypeError, then the value; descends into sequences; leaves are not inspected. -/
 mutual
@@ -69,10 +74,7 @@ def noDotL : List (Tr ι) → Option Err
 def noDotKV : List (Key × Tr ι) → Option Err
   | [] => none
   | (k, v) :: kvs =>
-    orErr (match k with
-           | .s s => if hasDot s then some .invalidKeyError else none
-           | .n _ => some .keyTypeError)
-      (orErr (noDot v) (noDotKV kvs))
+    orErr (dotKeyCheck k) (orErr (noDot v) (noDotKV kvs))
 end
 
 /-! `json_attr_dict_validator`: like `json_format_validator` plus the dot rule,
@@ -88,11 +90,7 @@ def jsonAttrL : List (Tr ι) → Option Err
 def jsonAttrKV : List (Key × Tr ι) → Option Err
   | [] => none
   | (k, v) :: kvs =>
-    orErr (jsonAttr v)
-      (orErr (match k with
-              | .s s => if hasDot s then some .invalidKeyError else none
-              | .n _ => some .keyTypeError)
-        (jsonAttrKV kvs))
+    orErr (jsonAttr v) (orErr (dotKeyCheck k) (jsonAttrKV kvs))
 end
 
 /-- The validators a class may carry.  `unknown` is what the translator emits for a
